@@ -13,7 +13,7 @@ TLS_BASED = ["tls", "btls", "utls"]
 
 
 def scenarios(tp):
-    s = ["normal", "refused", "idle"]
+    s = ["normal", "refused", "idle", "ctlflood"]
     if tp in TCP_BASED:
         s.append("silent")
     if tp in ("tcp", "btcp"):
@@ -67,7 +67,7 @@ def gen_scripts(rnd, nseeds, xid0=0):
     xid = xid0
     for tp in TPS:
         for sc in scenarios(tp):
-            n = nseeds if sc in ("normal", "mute", "garbage") else max(1, nseeds // 3)
+            n = nseeds if sc in ("normal", "mute", "garbage", "ctlflood") else max(1, nseeds // 3)
             for _ in range(n):
                 xid += 1
                 scripts.append("X %d %s %s %d" % (xid, tp, sc, rnd.randint(1, 10 ** 6)))
